@@ -1,11 +1,17 @@
-"""C07 — see harness/props/dev_ctl.py (shared with the other control-endpoint properties)."""
-from harness.props import dev_ctl
+"""C07 — see harness/props/dev_ctl.py (event level, shared with the other control-endpoint properties) and
+harness/props/c07_cyc.py (cycle level: the real USBControlEndpoint + StandardRequestHandler standalone against
+Model/Usb2/ControlCyc.lean, run through the `extra_checks` hook with its own driver)."""
+from harness.common import framework
+from harness.props import dev_ctl, c07_cyc
 
 PROP = "C07"
 LEAN_MODULES = ["LunaVerif.Props.C07"]
 DRIVER = dev_ctl.DRIVER
 REQUIRED_THEOREMS = ["stage_follows_setup", "data_in_only_after_in_setup", "in_token_answered_only_in_data_or_status_in", "out_data_answered_only_in_status_out", "setup_always_restarts", "other_endpoint_tokens_are_stutter", "other_endpoint_transactions_are_stutter"]
-RULE = dev_ctl.RULE
+RULE = dev_ctl.RULE + (" | cycle level (extra_checks): cases = (descriptor-set shape, endpoint number, max packet size) x a "
+                       "per-cycle micro-host driving the EndpointInterface of the standalone USBControlEndpoint (control "
+                       "transfers with abandoned stages, transactions on other endpoints and for other devices between the "
+                       "stages, corrupted SETUP data, PING, plus bursts of arbitrary tokenizer flags / strobes)")
 ASSUMPTIONS = dev_ctl.ASSUMPTIONS
 PARTIAL = dev_ctl.PARTIAL["C07"]
 
@@ -15,4 +21,10 @@ def gen_cases(tier, rng):
 
 
 def run_case(desc):
+    if desc.get("mode") == "cyc":
+        return c07_cyc.run_case(desc)
     return dev_ctl.run_dev_case(desc, PROP)
+
+
+def extra_checks(tier, rng, proof):
+    return c07_cyc.extra_checks(tier, rng, proof, nproc=framework.NPROC)
